@@ -84,6 +84,26 @@ def _shard_entry(args):
         return ("err", traceback.format_exc())
 
 
+class WatchdogTimeout(Exception):
+    """Raised by run_with_alarm when the callee does not return in time."""
+
+
+def run_with_alarm(seconds, fn, *a, **kw):
+    """Call fn under a SIGALRM watchdog (main thread of a worker process only)."""
+    import signal
+
+    def handler(signum, frame):
+        raise WatchdogTimeout(f"no return within {seconds} s")
+
+    old = signal.signal(signal.SIGALRM, handler)
+    signal.setitimer(signal.ITIMER_REAL, seconds)
+    try:
+        return fn(*a, **kw)
+    finally:
+        signal.setitimer(signal.ITIMER_REAL, 0)
+        signal.signal(signal.SIGALRM, old)
+
+
 def pmap(modname: str, funcname: str, shards: list, workers: int | None = None):
     """Run `modname.funcname(shard)` for every shard, in parallel; order preserved."""
     workers = workers or N_WORKERS
@@ -91,9 +111,22 @@ def pmap(modname: str, funcname: str, shards: list, workers: int | None = None):
     if workers <= 1 or len(shards) <= 1 or os.environ.get("VERIF_SERIAL"):
         results = [_shard_entry(j) for j in jobs]
     else:
+        # ProcessPoolExecutor workers are not daemonic, so checks that start the library's own
+        # process pool (C13-C15) can run inside a shard
+        from concurrent.futures import ProcessPoolExecutor
+
         ctx = mp.get_context("fork")
-        with ctx.Pool(min(workers, len(shards))) as pool:
-            results = pool.map(_shard_entry, jobs, chunksize=1)
+        limit = float(os.environ.get("VERIF_SHARD_TIMEOUT", "3000"))
+        pool = ProcessPoolExecutor(min(workers, len(shards)), mp_context=ctx)
+        try:
+            results = list(pool.map(_shard_entry, jobs, chunksize=1, timeout=limit))
+        except TimeoutError as e:
+            for proc in list(getattr(pool, "_processes", {}).values()):
+                proc.kill()
+            pool.shutdown(wait=False, cancel_futures=True)
+            raise HarnessError(f"shards of {modname}.{funcname} did not finish within "
+                               f"{limit} s") from e
+        pool.shutdown()
     out = []
     for (status, val), shard in zip(results, shards):
         if status == "err":
